@@ -394,7 +394,7 @@ def check_solvers(case, rec):
 def elastic_cases(draw):
     return dict(mode=cr.pick(draw, ["3D", "PE", "PS"]), elastic=draw(cr.elastic_specs()),
                 Ne=draw(st.integers(1, 4)), nPg=draw(st.integers(1, 4)), k=draw(st.integers(0, 9999)),
-                amp=cr.pick(draw, [1e-6, 1e-3, 1e-2, 1.0]), zold=cr.pick(draw, ["none", "zeros"]),
+                amp=cr.pick(draw, [1e-9, 1e-6, 1e-3, 1e-2, 1.0]), zold=cr.pick(draw, ["none", "zeros"]),
                 dt=cr.pick(draw, [0.0, 1.0]), solver=cr.pick(draw, ["auto", "newton"]))
 
 
